@@ -365,7 +365,7 @@ func rulesC05(p *Prog, r *Report) {
 			if !ok {
 				continue
 			}
-			if c, ok := ret.Results[0].(*ssa.Const); ok && c.IsNil() {
+			if isNilValue(ret.Results[0], 0) {
 				continue
 			}
 			n++
@@ -992,8 +992,7 @@ func ruleG6(p *Prog, r *Report, eng *Engine) {
 			if !ok {
 				continue
 			}
-			c, isC := ret.Results[0].(*ssa.Const)
-			if !isC || !c.IsNil() {
+			if !isNilValue(ret.Results[0], 0) {
 				continue
 			}
 			n++
